@@ -47,8 +47,17 @@ def _one(paths, what):
     return paths[0]
 
 
-def _world0():
-    return {"self.jobs": {}, "self.poller": Atom("poller")}
+def _world0(repo=None):
+    """The router as its own constructor leaves it (falls back to the bare field list if the constructor cannot be evaluated)."""
+    base = {"self.jobs": {}, "self.poller": Atom("poller")}
+    if repo is None:
+        from ..repo import get_repo
+        repo = get_repo()
+    from .common import ctor_env
+    env = ctor_env(repo, f"{R}.JobRouter", {"poller": Atom("poller")})
+    if isinstance(env.get("self.jobs"), dict):
+        return {**base, **env}
+    return base
 
 
 def _spawn(repo, world, draws, all_paths=False):
@@ -215,13 +224,13 @@ def r2_results(ctx):
     D1, D2, D3 = dsid("a.b", "c"), dsid("a", "b.c"), dsid("z", "0")
     try:
         j1, j2, w0 = _two_jobs(repo)
-        steps = _report(repo, w0, j1, "50.00", 200, ((D1, b"x"), (D3, b"y")))
+        steps = _report(repo, w0, j1, "50.00", 200, ((D1, b"x"), (D3, b"")))  # an empty result is a result
         if len(steps) != 1 or steps[0][0].exit[0] != "return":
             ctx.violation("C18.R2", fi.qual, L, "report handled", f"a well-formed controller report for a known job makes handle_controller end with "
                           f"{[(p.exit[0], vkey(p.exit[1])[:60]) for p, _ in steps]}")
             return
         w = steps[0][1]
-        want = {(j1, "D1"): ("return", b"x"), (j1, "D3"): ("return", b"y"), (j1, "D2"): "raise", (j2, "D1"): "raise", (j2, "D3"): "raise"}
+        want = {(j1, "D1"): ("return", b"x"), (j1, "D3"): ("return", b""), (j1, "D2"): "raise", (j2, "D1"): "raise", (j2, "D3"): "raise"}
         dsn = {"D1": D1, "D2": D2, "D3": D3}
         okk = True
         for (jid, dn), exp in want.items():
@@ -230,7 +239,7 @@ def r2_results(ctx):
             good = (got[0] == "raise") if exp == "raise" else (got == exp)
             if not good:
                 ctx.violation("C18.R2", g.qual, loc(g), f"result of ({'own' if jid == j1 else 'other'} job, {dn})",
-                              f"job j1 uploaded D1=DatasetId('a.b','c')->x and D3->y; get_result({jid}, {dn}={vkey(dsn[dn])}) gives {got[0]} {vkey(got[1])[:60]}, expected "
+                              f"job j1 uploaded D1=DatasetId('a.b','c')->x and D3->b'' (empty); get_result({jid}, {dn}={vkey(dsn[dn])}) gives {got[0]} {vkey(got[1])[:60]}, expected "
                               f"{'an error (never uploaded for that job/dataset)' if exp == 'raise' else exp[1]!r}", row={"job": jid, "dataset": dn})
                 okk = False
         sh = _shown(repo, w, [j1])
